@@ -286,9 +286,98 @@ def run_step(eng, p):
     return "ok"
 
 
+# ----------------------------------------------- polygon filter identity
+class HKey:
+    """hashobj stand-in: structural identity of the hashed object"""
+
+    def __init__(self, parts):
+        self.parts = parts
+
+    def eq(self, o):
+        if len(self.parts) != len(o.parts):
+            return z3.BoolVal(False)
+        cs = []
+        for a, b in zip(self.parts, o.parts):
+            if isinstance(a, str) or isinstance(b, str):
+                cs.append(z3.BoolVal(a == b))
+            else:
+                cs.append(a == b)
+        return z3.And(cs) if cs else z3.BoolVal(True)
+
+
+def _flatten_hash(obj):
+    from vf.symx import toreal
+    if isinstance(obj, (list, tuple)):
+        out = ["["]
+        for x in obj:
+            out += _flatten_hash(x)
+        return out + ["]"]
+    if isinstance(obj, (SArr,)) or hasattr(obj, "rows"):
+        rows = obj.rows if hasattr(obj, "rows") else [list(obj)]
+        out = ["arr%d" % len(rows)]
+        for r in rows:
+            out += [toreal(v) for v in (r if isinstance(r, list)
+                                        else list(r))]
+        return out
+    if isinstance(obj, (SBool, bool)):
+        return [tobool(obj)]
+    if isinstance(obj, str):
+        return [obj]
+    return [toreal(obj)]
+
+
+def run_pfhash(eng, p):
+    """Filter.update decides by `pf.hash` whether a cached polygon result is
+    stale: the hash of the real PolygonFilter must change whenever axes,
+    points or the inversion flag change"""
+    from vf.symnp import SMat
+    PF = "dclab.polygon_filter"
+    ns = shadow(PF, np=SymNP(), hashobj=lambda o: HKey(_flatten_hash(o)))
+    cls = ns["PolygonFilter"]
+    pf = cls.__new__(cls)
+    n = 3
+
+    def state(tag):
+        ax = AXES[p[tag + "_axes"]]
+        pts = [[eng.real("%s_x%d" % (tag, i)), eng.real("%s_y%d" % (tag, i))]
+               for i in range(n)]
+        inv = eng.bool(tag + "_inverted")
+        return ax, pts, inv
+
+    def install(st):
+        ax, pts, inv = st
+        pf.axes = ax
+        pf.points = SMat([list(r) for r in pts], float)
+        pf.inverted = inv
+    s1, s2 = state("s1"), state("s2")
+    install(s1)
+    with quiet():
+        h1 = pf.hash
+    install(s2)
+    with quiet():
+        h2 = pf.hash
+    same_state = z3.And([z3.BoolVal(tuple(s1[0]) == tuple(s2[0]))] + [
+        a.e == b.e for r1, r2 in zip(s1[1], s2[1]) for a, b in zip(r1, r2)]
+        + [s1[2].e == s2[2].e])
+    eng.prove(z3.Implies(h1.eq(h2), same_state),
+              "PolygonFilter.hash: equal hashes only for equal axes, points "
+              "and inversion (otherwise Filter.update keeps a stale polygon "
+              "result)")
+    eng.prove(z3.Implies(same_state, h1.eq(h2)),
+              "PolygonFilter.hash: equal settings give equal hashes")
+    return "ok"
+
+
+AXES = {"ad": ("area_um", "deform"), "da": ("deform", "area_um"),
+        "ab": ("area_um", "bright_avg")}
+
+
 def run_case(name, params):
     eng = Engine(timeout_ms=30000)
-    eng.explore(lambda e: run_step(e, params))
+    if params.get("kind") == "pfhash":
+        eng.explore(lambda e: run_pfhash(e, params))
+    else:
+        eng.explore(lambda e: run_step(e, params))
     return eng.stats()
 
 
@@ -296,6 +385,9 @@ def cases(tier, seed):
     out = []
     N = 2 if tier == "quick" else 3
     rnd = random.Random(seed)
+    for a1, a2 in (("ad", "ad"), ("ad", "da"), ("ad", "ab")):
+        out.append(("polygon hash axes %s -> %s" % (a1, a2),
+                    dict(kind="pfhash", s1_axes=a1, s2_axes=a2, N=N)))
     # fresh filter (no previous settings)
     for has_cur in itertools.product([False, True], repeat=2):
         for polys in ([], [5]):
@@ -383,11 +475,49 @@ def _poly_points(inside):
     return np.array(pts)
 
 
+def replay_pfhash(p, vals):
+    from dclab.polygon_filter import PolygonFilter
+
+    def pts(tag):
+        return [[float(vals.get("%s_x%d" % (tag, i), i) or 0),
+                 float(vals.get("%s_y%d" % (tag, i), i * i) or 0)]
+                for i in range(3)]
+    with quiet():
+        pf = PolygonFilter(axes=AXES[p["s1_axes"]], points=pts("s1"),
+                           inverted=bool(vals.get("s1_inverted", False)),
+                           unique_id=4711)
+        try:
+            h1 = pf.hash
+            pf.axes = AXES[p["s2_axes"]]
+            pf.points = pts("s2")
+            pf.inverted = bool(vals.get("s2_inverted", False))
+            h2 = pf.hash
+            changed = (AXES[p["s1_axes"]] != AXES[p["s2_axes"]] or
+                       pts("s1") != pts("s2") or
+                       bool(vals.get("s1_inverted", False)) !=
+                       bool(vals.get("s2_inverted", False)))
+        finally:
+            PolygonFilter.remove(4711)
+    if changed and h1 == h2:
+        return {"reproduced": True, "key": "PolygonFilter.hash|unchanged-"
+                "after-edit", "detail": "hash unchanged after the edit "
+                "axes %s -> %s, points %r -> %r" % (
+                    AXES[p["s1_axes"]], AXES[p["s2_axes"]], pts("s1"),
+                    pts("s2"))}
+    if not changed and h1 != h2:
+        return {"reproduced": True, "key": "PolygonFilter.hash|unstable",
+                "detail": "hash differs for identical settings"}
+    return {"reproduced": False, "key": "not-reproduced",
+            "detail": "hash follows the settings on the real code"}
+
+
 def replay(case, params, v):
     import dclab
     from dclab.polygon_filter import PolygonFilter
     vals = v.get("values") or {}
     p = params
+    if p.get("kind") == "pfhash":
+        return replay_pfhash(p, vals)
     N = p["N"]
     data = {f: np.array([_fv(vals, "%s%d" % (f, i)) for i in range(N)])
             for f in FEATS}
